@@ -961,7 +961,7 @@ def fatal_scripts(kind, nret, n, rng, thorough):
     fam = family(kind)
     if n == 0:
         return [""]
-    pos = sorted(set([0, n - 1] + rng.sample(range(n), min(n, 6 if thorough else 1))))
+    pos = sorted(set([0, n - 1] + rng.sample(range(n), min(n, 3 if thorough else 1))))
     burst = nret + 2 if fam == "t4" else BUDGET
     out = [""]
 
@@ -991,7 +991,7 @@ def follow_scripts(n, rng, thorough):
         return ["", "t", "a" * (n - 1) + rng.choice("TX")]
     out = [""]
     for p in sorted(set([0, n - 1, rng.randrange(n)])):
-        out += ["a" * p + "t", "a" * p + "T", "a" * p + "x", "a" * p + "tt"]
+        out += ["a" * p + "t", "a" * p + rng.choice("TX"), "a" * p + rng.choice(["x", "tt"])]
     return out
 
 
@@ -1030,7 +1030,7 @@ def run_sessions(ck, model, cfg, rng, plans):
         if fam in ("t2", "t4"):
             # three operations: cache and link state carried over two boundaries
             third = [x for x in ("ndef", "write", "write2", "present", "dump") if x in table]
-            seqs += [(a, b, c) for a in names for b in third for c in third if rng.random() < (0.3 if ck.thorough else 0.08)]
+            seqs += [(a, b, c) for a in names for b in third for c in third if rng.random() < (0.15 if ck.thorough else 0.08)]
         if kind in ("t2big", "nt3h"):
             seqs = [s for s in seqs if rng.random() < (0.3 if ck.thorough else 0.06)]     # long operations
         elif not ck.thorough and (family(kind) in ("t1", "t3") or kind in SECONDARY):
